@@ -116,3 +116,20 @@ def register(claim) -> None:
         "Obligations C10.1-C10.6.",
         "Attribution under interleavings follows from ContextVar semantics (trusted); logging.Logger.log is assumed non-raising.",
     )
+    claim(
+        "C18",
+        "argument-forwarding and value-origin dataflow on every wrapper + handler classification + wrapper-provenance scan over all public decorators",
+        "Decides argument/result/exception transparency of the asynchronous, wrap_async and traced wrappers, that both executor call forms submit "
+        "copy_context().run(partial(...)) taken in the call, what traced records and where (scope named after the function, arguments before, result "
+        "or exception after), and that every wrapper any public decorator can return is passed through a mimic that copies name/qualname/doc/module "
+        "and sets __wrapped__. Obligations C18.1-C18.6.",
+        "run_in_executor really running on another thread while the loop keeps serving is trusted, not analysed.",
+    )
+    claim(
+        "C19",
+        "sibling cross-check of the eight log emissions (level constants, forwarding) + abstract evaluation of logger/trace-id selection + taint of the %-format position",
+        "Decides level constants and forwarding for all eight emission sites and four ctx entry points, the root-logger fallback only on "
+        "LookupError, the logger and trace-id selection chains under given/absent scenarios (nested inherits, outermost fresh), the contents of "
+        "the tag, and that untrusted scope text cannot reach the %-format position unescaped when arguments are passed. Obligations C19.1-C19.6.",
+        "What logging handlers do with the record is not analysed; uuid4 freshness trusted.",
+    )
